@@ -18,6 +18,7 @@ import PoetryVerif.Proofs.MarkerAlgSoundInvert
 import PoetryVerif.Proofs.MarkerAlgSoundVerEqv
 import PoetryVerif.Proofs.MarkerAlgSoundVerInv
 import PoetryVerif.Proofs.MarkerAlgSoundVerMk
+import PoetryVerif.Proofs.MarkerAlgSoundPv
 import PoetryVerif.Proofs.MarkerPrint
 
 set_option linter.unusedSimpArgs false
@@ -403,6 +404,60 @@ example : LitB [exV380] := by
   simp only [List.mem_cons, List.mem_nil_iff, or_false] at hV
   subst hV
   exact ⟨3, [8, 0], by decide, rfl⟩
+
+/-- **The leaf facts for same-name `python_version` leaves, no hypothesis**: leaves
+`python_version <op> "X.Y"` with `<op>` one of `== != < <= > >=` and a two-component literal, in every environment
+whose `python_version` is a two-component release.  All outcomes of `_merge_single_markers` are covered: the
+generic ones (empty / any / one operand / a simple constraint re-read through `SingleMarker(name, str(c))` — here
+the constructor fact is *proved*, by C11's `normPair_exact`), the special `== "X.Y"` candidate branch
+(`parse_marker` of the candidate text, `get_python_constraint_from_marker` of the candidate compared with the
+intersection), the "intersection of the converted constraints is empty" branch and the converted-union
+branch (C05's `intersect_reg`/`unionWith_reg` over the bounds of the converted constraints, C11's exactness of
+the conversion, evaluated at `X.Y.0` and transferred to the two-component probe by padding congruence). -/
+theorem leafSpec_python_version {X Y : Nat} (hE : E.get? "python_version" = some (Version.relText [X, Y])) :
+    LeafSpec (leafEval E) PvLeaf := leafSpec_pv hE
+
+/-- **Intersection and union preserve truth on markers over `python_version` comparison leaves, plain string
+variables and `extra`**: every fuel, every stack, no unproved hypothesis. -/
+theorem intersect_union_sound_python_version {ex : List String} (hX : E.extras = some ex) {X Y : Nat}
+    (hE : E.get? "python_version" = some (Version.relText [X, Y])) {a b r : M}
+    (ha : M.Good (PvDomLeaf E) a) (hb : M.Good (PvDomLeaf E) b) :
+    (mIntersect fuel stk a b = .ok r →
+      M.Good (PvDomLeaf E) r ∧ M.validate E r = .ok (holds E a && holds E b)) ∧
+    (mUnion fuel stk a b = .ok r →
+      M.Good (PvDomLeaf E) r ∧ M.validate E r = .ok (holds E a || holds E b)) :=
+  ⟨fun h => by
+      have := intersect_sound_partial (leafSpec_pvDom hX hE)
+        (fun l hl => pvDomLeaf_evaluable hX hE hl) ha hb h
+      exact ⟨this.1, this.2.2⟩,
+   fun h => by
+      have := union_sound_partial (leafSpec_pvDom hX hE)
+        (fun l hl => pvDomLeaf_evaluable hX hE hl) ha hb h
+      exact ⟨this.1, this.2.2⟩⟩
+
+def exEnvPv : Env := ⟨[("python_version", "3.9"), ("sys_platform", "a")], some []⟩
+
+/-- `python_version >= "3.8"` and `python_version < "3.9"` are leaves of the fragment, built by the marker
+constructor; their intersection (whatever the simplifier returns — here the `== "3.8"` candidate branch is
+reached) is false in an environment with `python_version = 3.9` -/
+example : mkSingle "python_version" ">=3.8" false = .ok (pvLeafOf .ge ">=" 3 8) ∧
+    mkSingle "python_version" "<3.9" false = .ok (pvLeafOf .lt "<" 3 9) ∧
+    ∀ fuel stk r, mIntersect fuel stk (.leaf (.single (pvLeafOf .ge ">=" 3 8)))
+      (.leaf (.single (pvLeafOf .lt "<" 3 9))) = .ok r → M.validate exEnvPv r = .ok false := by
+  have t1 : ">=" ++ Version.relText [3, 8] = ">=3.8" := by decide
+  have t2 : "<" ++ Version.relText [3, 9] = "<3.9" := by decide
+  refine ⟨t1 ▸ mkSingle_pvLeaf (sop := .ge) (ops := ">=") (by decide) 3 8,
+    t2 ▸ mkSingle_pvLeaf (sop := .lt) (ops := "<") (by decide) 3 9, fun fuel stk r h => ?_⟩
+  have hE : exEnvPv.get? "python_version" = some (Version.relText [3, 9]) := by decide
+  have g1 : M.Good (PvDomLeaf exEnvPv) (.leaf (.single (pvLeafOf .ge ">=" 3 8))) :=
+    (M.good_leaf _).2 (Or.inr ⟨.ge, ">=", 3, 8, by decide, rfl⟩)
+  have g2 : M.Good (PvDomLeaf exEnvPv) (.leaf (.single (pvLeafOf .lt "<" 3 9))) :=
+    (M.good_leaf _).2 (Or.inr ⟨.lt, "<", 3, 9, by decide, rfl⟩)
+  have := ((intersect_union_sound_python_version (E := exEnvPv) (fuel := fuel) (stk := stk) (ex := []) rfl hE g1 g2).1 h).2
+  rw [this]
+  have e1 : holds exEnvPv (.leaf (.single (pvLeafOf .ge ">=" 3 8))) = true := by decide
+  have e2 : holds exEnvPv (.leaf (.single (pvLeafOf .lt "<" 3 9))) = false := by decide
+  rw [e1, e2]; rfl
 
 /-- the leaf facts that remain hypotheses outside the string fragment, as one visible statement:
 version-like variables (through C05's exactness on regular probes), the
